@@ -922,6 +922,34 @@ def flp_min_axis(ctx: Ctx):
                                                                      "UNKNOWN rank: it comes out of gather_by_index with a [B, k] index, which has rank 3 for k > 1 and rank 2 for k = 1 "
                                                                      "(the gathered axis is squeezed away), so with one facility the minimum runs over the locations")
     ctx.ob("C03.e", "FLPEnv._get_reward:min-over-facilities", ok, sl.where, why, construct="FLPEnv._get_reward:min-axis-rank")
+    flp_masked_min(ctx, "C03.e", "FLPEnv._get_reward", ret, sl.where)
+
+
+def flp_masked_min(ctx: Ctx, rid: str, label: str, value, where):
+    """`nearest CHOSEN facility` as a masked minimum: the entries taken out of the minimum (filled with +inf) are exactly the rows
+    of the locations that are NOT chosen.  Filling the chosen rows instead gives the distance to the nearest unchosen location."""
+    fills = [n for n in vg.walk(value) if n.op == "meth" and n.args[1] in ("masked_fill", "masked_fill_") and len(n.args) >= 4] if isinstance(value, vg.S) else []
+    fills = [n for n in fills if "chosen" in vg.cells_of(n.args[2]) or any(x.op == "store" for x in vg.walk(n.args[2]))]
+    if not fills:
+        return
+    for n in fills[:1]:
+        m, v = n.args[2], n.args[3]
+        def sel(val):
+            def a_(x):
+                y = nf.strip(x, True)
+                while y.op == "meth" and y.args[1] in ("unsqueeze", "clone", "view", "reshape", "expand", "bool"):
+                    y = nf.strip(y.args[0], True)
+                if (y.op == "cell0" and y.args[1] == "chosen") or (y.op == "store" and "chosen" in vg.cells_of(y.args[0])):
+                    return val
+                return None
+            return a_
+        neg = nf.kleene(m, sel(True)) is False and nf.kleene(m, sel(False)) is True
+        txt = vg.show(v, 2)
+        pos_inf = ("inf" in txt and not txt.strip().startswith("-") and "-inf" not in txt and "- " not in txt)
+        ok = neg and pos_inf
+        ctx.ob(rid, f"{label}:minimum-over-the-chosen", ok, where,
+               f"entries removed from the minimum: mask {vg.show(m, 3)[:60]} is the complement of the selection: {neg}; fill value {txt} is +inf: {pos_inf}",
+               construct=f"{label}:masked-min-polarity")
 
 
 def _is_agent_cmp(a):
